@@ -25,6 +25,14 @@ CLAIMED = [
         "the cursor over all residues mod 16 and recycled segments at all 8-residues for all 19 menu types.", "6 C03"),
     seq("C04", "Boundary-dense request sizes up to u32::MAX in reachable arena shapes, in overflow-checked and unchecked builds, each run "
         "attributable on process death; TLC checks clean error kind and that a failed call leaves cursor/discarded/remaining/free list untouched.", "6 C04"),
+    seq("C05", "File-backed sync/unsync arenas are closed and reopened (map_mut, map_copy, map, map_copy_read_only; capacity same/larger/absent; with and "
+        "without flush; create flag) between random histories, up to three cycles; TLC compares allocated/discarded/data_offset/minimum segment size/kind/"
+        "magic version, the bytes below allocated(), the free list, and keeps checking disjointness from ranges handed out before the close; what a "
+        "private (COW) or read-only session did must not reach the file.", "6 C05"),
+    seq("C09", "ArenaFile.tla models the open procedures step by step and is model-checked over every file class x attempt; real open attempts on files with "
+        "every identification byte altered, truncated, arbitrary or removed are judged by TraceOpen (mismatch refused, refused/read-only open leaves the "
+        "bytes) and compared with the model; read-only sessions: every mutating call of the safe API must be refused without effect, each in a child run "
+        "so that a crash is attributable.", "6 C09"),
     seq("C08", "ZeroOnReturn evaluated at the instant of return (memory logged before the harness writes) for fresh, recycled, rewound and "
         "top-released space; model-checked on ArenaSeq with byte-level memory.", "6 C08"),
     seq("C10", "Free-list well-formedness and the Optimistic/Pessimistic/None policy predicates evaluated in every model transition and on "
